@@ -556,6 +556,18 @@ class Model:
             if d >= depth:
                 continue
             for n in ast.walk(f):
+                # a private function handed on as a value (partial(_h, ..), map(_h, ..),
+                # reduce(_h, ..), key=_h) is called by whoever receives it
+                if isinstance(n, ast.Name) and isinstance(n.ctx, ast.Load) \
+                        and n.id.startswith("_") and n.id in mi.functions \
+                        and not (isinstance(getattr(n, "_parent", None), ast.Call)
+                                 and n._parent.func is n):
+                    tgt = mi.functions[n.id]
+                    if id(tgt) not in seen:
+                        seen.add(id(tgt))
+                        out.append(tgt)
+                        frontier.append((tgt, d + 1))
+                    continue
                 if not isinstance(n, ast.Call):
                     continue
                 tgt = None
